@@ -36,4 +36,7 @@ MODELS = WM.MODELS
 XML = WM.XML
 INVOCABLE = WM.INVOCABLE
 REMOVE_KEYS = WM.REMOVE_KEYS
-EVAL_NAMES = WM.EVAL_NAMES
+# names that decorate a stored model's name the way a file name, a path or a form field would (extension, slash, case, padding): other
+# names, which nobody has - through every endpoint
+DECORATED_NAMES = ["a.dmn", "c.dmn", "a/", "A", " a"]
+EVAL_NAMES = WM.EVAL_NAMES + DECORATED_NAMES
